@@ -168,4 +168,10 @@ Definition scripted : scheduler script_state :=
 
 Definition run_prog (fuel : nat) (ms : max_steps) (objs : store) (bodies : list (list op)) (script : list (option nat)) (rseed : N)
   : world * script_state * outcome :=
-  run_exec scripted fuel ms (compile bodies) objs (mkScript script rseed).
+  run_exec scripted ms fuel (compile bodies) objs (mkScript script rseed).
+
+(* check_dfs on a program: every execution's recorded schedule, in order *)
+From SV Require Import Engine.Runner Sched.Dfs.
+Definition run_prog_dfs (iters efuel : nat) (ms : max_steps) (max_iter : option nat) (objs : store) (bodies : list (list op))
+  : list (world * Exec.outcome) * dfs_state * bool :=
+  runner_loop dfs_sched ms iters efuel (compile bodies) objs (mkDfsSt (dfs_new max_iter) false).
